@@ -35,6 +35,11 @@ def cases(tier, seed):
             for ds in (None, b'DATA' * 5):
                 yield {'cls': name, 'sop_class': uid_of_len(n), 'ds': ds, 'ops': []}
                 yield {'cls': name, 'sop_inst': uid_of_len(n, 3), 'ds': ds, 'ops': []}
+    if tier == 'thorough':
+        for a in range(1, 65):
+            for b in range(1, 65):
+                yield {'cls': 'CStoreRQMessage' if (a + b) % 2 else 'NActionRSPMessage', 'sop_class': uid_of_len(a), 'sop_inst': uid_of_len(b, 3),
+                       'ds': None if a % 2 else b'xy', 'ops': []}
     for name in names:
         for v in (0, 1, 255, 256, 32767, 32768, 65535):
             for ds in (None, b'ab'):
